@@ -19,10 +19,10 @@ using namespace c09;
 
 namespace
 {
-    std::unique_ptr<Api> g_api[2];
+    std::unique_ptr<Api> g_api[3];
     Api &api(int k)
     {
-        if (!g_api[k]) g_api[k].reset(k == 0 ? make_api1() : make_api2());
+        if (!g_api[k]) g_api[k].reset(k == 0 ? make_api1() : k == 1 ? make_api2() : make_api1b());
         return *g_api[k];
     }
 
@@ -52,9 +52,9 @@ namespace
         int k;
         bool cut;
         std::string nm;
-        StreamWorld(int k, bool cut) : k(k), cut(cut) { nm = std::string(k ? "serializer-api" : "archive-api") + (cut ? "+truncation" : ""); }
+        StreamWorld(int k, bool cut) : k(k), cut(cut) { nm = std::string(k == 1 ? "serializer-api" : k == 0 ? "archive-api" : "archive-api-bufwriter") + (cut ? "+truncation" : ""); }
         const char *name() const override { return nm.c_str(); }
-        unsigned weight(Tier) const override { return cut ? 3 : 3; }
+        unsigned weight(Tier) const override { return k == 2 ? 2 : 3; }
         Plan generate(Rng &r, Tier tier) override
         {
             Plan p;
@@ -236,11 +236,11 @@ int main(int argc, char **argv)
         }
         return 0;
     }
-    StreamWorld w1(0, false), w2(1, false), w2c(1, true);
+    StreamWorld w1(0, false), w2(1, false), w2c(1, true), w1b(2, false);
     GoldenWorld wg;
     Harness h;
     h.property = "C09";
-    h.worlds = {&w1, &w2, &w2c, &wg};
+    h.worlds = {&w1, &w2, &w2c, &wg, &w1b};
     h.real = {"igris/serialize/archive.h", "igris/serialize/helper.h", "igris/serialize/stdtypes.h", "igris/serialize/serialize.h", "igris/serialize/serializer.h",
               "igris/serialize/serialize_protocol.h", "igris/serialize/serialize_storage.h", "igris/serialize/serialize_archive.h", "igris/serialize/serialize_scheme.h",
               "igris/serialize/serialize_tags.h", "igris/serialize/serialize_checks.h", "igris/buffer.h"};
